@@ -317,7 +317,7 @@ func iaBody(ias []*interactive) func(*engine.X) {
 func paillierNInst(bits int) *niInst {
 	keys := map[int]*paillier.SecretKey{0: paillierKey("general", bits), 1: paillierKey("blum", bits)}
 	n := &niInst{name: fmt.Sprintf("pailliern/%d", bits), heavy: true, unitMS: 60, noRename: true, soundnessError: 128, specialSoundness: 2}
-	n.altNames = []string{"N:=other-public-key"}
+	n.altNames = func() []string { return []string{"N:=other-public-key"} }
 	n.compileErr = func(c compiler.Name) error {
 		if c != fiatshamir.Name {
 			return fmt.Errorf("pailliern is its own non-interactive proof; no %s variant", c)
